@@ -195,13 +195,18 @@ def apply_ref(l, op, impl_result):
 PROBE_KEYS = K + ["zz"]
 
 
-def views(m):
+def sizes_first(m):
+    return (len(m), bool(m), len(m.keys()), len(m.items()), len(m.values()))
+
+
+def views(m, first=None):
     def idx(k):
         try:
             return ("v", m[k])
         except KeyError:
             return ("KeyError",)
-    first = (len(m), bool(m), len(m.keys()), len(m.items()), len(m.values()))  # the size is asked for before any keyed view is consulted
+    if first is None:
+        first = sizes_first(m)  # the size is asked for before any keyed view is consulted
     keys = list(m.keys())
     out = _views(m, first, keys, idx)
     # a caller is free to edit the list it was handed for a key that is not there (tags = m.getlist("tag"); tags.append(...)):
@@ -262,6 +267,7 @@ def replay_history(init, hist):
         frozen = [list(x) for x in handed_out]
         held = (m.keys(), m.values(), m.items())  # views obtained before the operation stay views of the mapping
         ri = apply_impl(m, op)
+        first = sizes_first(m)  # (before anything else looks at the mapping)
         rr = apply_ref(l, op, ri)
         if ri != rr:
             return m, l, (i, "result", ri, rr)
@@ -274,7 +280,7 @@ def replay_history(init, hist):
             now, fresh_ = ("raised", type(e).__name__), None
         if now != fresh_:
             return m, l, (i, "held-views", now, fresh_)
-        va, vb = views(m), ref_views(l)
+        va, vb = views(m, first), ref_views(l)
         if va != vb:
             diff = sorted(k for k in va if va[k] != vb[k])
             return m, l, (i, "views:" + ",".join(diff), {k: va[k] for k in diff}, {k: vb[k] for k in diff})
